@@ -219,12 +219,15 @@ def gen_case(rng, k=0):
     chosen = rng.sample(fams, nf)
     if k % 7 == 3:
         chosen = ["Latn", "Grek", "Cyrl"]
+    if k % 7 == 6:
+        # four or five left-to-right scripts chained by cross-script kerning (bucket merging must be transitive)
+        chosen = rng.sample(["Latn", "Grek", "Cyrl", "Armn", "Hrkt"], rng.choice([4, 5]))
     if k % 7 == 5:
         chosen = rng.sample(["Hebr", "Arab"], rng.choice([1, 2])) + rng.sample(["Latn", "Armn"], rng.choice([0, 1]))
     glyphs = []
     for f in chosen:
         pool = FAMILIES[f]
-        glyphs += rng.sample(pool, min(len(pool), rng.choice([2, 2, 3])))
+        glyphs += rng.sample(pool, min(len(pool), rng.choice([2, 2, 3]) if len(chosen) < 4 else 2))
     glyphs += rng.sample(NEUTRALS, rng.choice([1, 2, 3]))
     if rng.random() < 0.35:
         glyphs += rng.sample(MARKS, rng.choice([1, 2]))
@@ -267,15 +270,35 @@ def gen_case(rng, k=0):
             groups[prefix + "empty"] = ["ghost"]
         return groups
 
-    g1 = partition("public.kern1.")
-    g2 = partition("public.kern2.")
+    def chain(prefix):
+        # look-alike classes joining consecutive scripts pairwise: {s0,s1}, {s2}, {s2,s3}, {s3,s0}, ...
+        per = [[g for g in glyphs if POOL[g][0] is not None and f in script_ext(POOL[g][0])] for f in chosen]
+        per = [p for p in per if p]
+        order = list(range(len(per)))
+        rng.shuffle(order)
+        groups = {}
+        used = set()
+        for n, (a, b) in enumerate(zip(order, order[1:] + order[:1])):
+            ms = [g for g in (rng.choice(per[a]), rng.choice(per[b])) if g not in used]
+            if rng.random() < 0.3:
+                ms = ms[:1]
+            if ms:
+                used |= set(ms)
+                groups[prefix + "X%d" % n] = ms
+        return groups
+
+    if len(chosen) >= 4:
+        g1, g2 = chain("public.kern1."), chain("public.kern2.")
+    else:
+        g1 = partition("public.kern1.")
+        g2 = partition("public.kern2.")
     groups = {**g1, **g2}
     if rng.random() < 0.2:
         groups["other.group"] = glyphs[:2]
     side1 = glyphs + list(g1) + ["ghost"]
     side2 = glyphs + list(g2) + ["ghost"]
     kerning = {}
-    for _ in range(rng.choice([2, 4, 6, 9])):
+    for _ in range(rng.choice([2, 4, 6, 9]) if len(chosen) < 4 else 10):
         a = rng.choice(side1 if rng.random() < 0.5 else (list(g1) or side1))
         b = rng.choice(side2 if rng.random() < 0.5 else (list(g2) or side2))
         kerning[f"{a}|{b}"] = rng.choice(VALUES)
@@ -524,12 +547,18 @@ class Gpos:
 # the observer
 
 
+STATS = {"carved": 0, "nonzero_ok": 0}
+
+
 def observe(case, limit=5):
     """-> list of violation dicts (empty when the property holds on this case)."""
     from fontTools import unicodedata as ud
 
     ref = Ref(case)
-    tt, fea = compile_gpos(case)
+    try:
+        tt, fea = compile_gpos(case)
+    except Exception as e:  # noqa  -- the real writers / feaLib reject a valid UFO: the font cannot be built at all
+        return [{"clause": "compiles", "error": "".join(traceback.format_exception_only(type(e), e)).strip()[:400], "where": traceback.format_exc()[-500:]}], 1
     gp = Gpos(tt)
     glyphs = list(case["glyphs"])
     out = []
@@ -581,7 +610,11 @@ def observe(case, limit=5):
                         if bad:
                             out.append({"clause": bad, **where})
                             if len(out) >= limit:
+                                STATS["carved"] += n_carved
                                 return out, n_eval
+                        elif exp != 0:
+                            STATS["nonzero_ok"] += 1
+    STATS["carved"] += n_carved
     return out, n_eval
 
 
@@ -622,10 +655,13 @@ def check_lt():
             if got != want:
                 bad.append({"clause": "lt-order", "p": repr(p), "q": repr(q), "got": got, "want": want})
     # sorting realises the precedence order
-    srt = sorted(pairs)
-    kinds = [(p.firstIsClass, p.secondIsClass) for p in srt]
-    if kinds != sorted(kinds):
-        bad.append({"clause": "sorted-by-kind", "kinds": kinds})
+    try:
+        srt = sorted(pairs)
+        kinds = [(p.firstIsClass, p.secondIsClass) for p in srt]
+        if kinds != sorted(kinds):
+            bad.append({"clause": "sorted-by-kind", "kinds": kinds})
+    except Exception as e:  # noqa
+        bad.append({"clause": "sorted-by-kind", "error": repr(e)})
     return bad, n
 
 
@@ -653,7 +689,11 @@ def check_merge(universe, max_keys, rng=None, sample=None):
     subsets = [tuple(sorted(c)) for r in range(1, len(universe) + 1) for c in itertools.combinations(universe, r)]
     fams = []
     for r in range(0, max_keys + 1):
-        fams += list(itertools.permutations(subsets, r)) if r <= 2 else list(itertools.combinations(subsets, r))
+        # the order of the buckets matters to the algorithm: ordered families
+        if len(subsets) ** r <= 300000:
+            fams += list(itertools.permutations(subsets, r))
+        else:
+            fams += [tuple(rng.sample(subsets, r)) for _ in range(sample or 10000)]
     if sample is not None and len(fams) > sample:
         fams = rng.sample(fams, sample)
     bad = []
@@ -689,10 +729,81 @@ def check_merge(universe, max_keys, rng=None, sample=None):
 
 
 # =====================================================================================================
+# (4) getKerningGroups on real writers (the function is outside the engine's subset: set.intersection(dict.keys()))
+
+
+def groups_case(rng, k):
+    c = gen_case(rng, k)
+    if k % 3 == 0 and c["glyphs"]:
+        c["skip"] = [rng.choice(c["glyphs"])]
+    if k % 2 == 0:
+        # invalid-but-possible UFO data: a later group overlapping an earlier one of the same side
+        for prefix in ("public.kern1.", "public.kern2."):
+            names = [n for n in c["groups"] if n.startswith(prefix) and c["groups"][n]]
+            if names:
+                g = rng.choice(c["groups"][rng.choice(names)])
+                c["groups"][prefix + "zz_overlap"] = [g, rng.choice(c["glyphs"])]
+    return c
+
+
+def check_groups(case):
+    from contracts.c05 import _writer_for
+
+    w = _writer_for(case)
+    gs = set(w.context.glyphSet.keys())
+    s1, s2 = w.getKerningGroups()
+    bad = []
+    ufo_groups = list(w.context.font.groups.items())
+    for side, res, prefix, memb in ((1, s1, "public.kern1.", w.context.side1Membership), (2, s2, "public.kern2.", w.context.side2Membership)):
+        kept_so_far = set()
+        expect = {}
+        for name, members in ufo_groups:
+            pruned = set(members) & gs
+            if not name.startswith(prefix) or not pruned:
+                continue
+            if pruned & kept_so_far:
+                continue  # overlap with an earlier kept group: the whole definition is skipped
+            expect[name] = tuple(sorted(pruned))
+            kept_so_far |= pruned
+        if dict(res) != expect:
+            bad.append({"clause": "groups-kept", "side": side, "got": {k: list(v) for k, v in res.items()}, "want": {k: list(v) for k, v in expect.items()}})
+        for a, b in itertools.combinations(res.values(), 2):
+            if set(a) & set(b):
+                bad.append({"clause": "groups-disjoint", "side": side, "groups": [list(a), list(b)]})
+        inv = {g: n[len(prefix):] for n, ms in res.items() for g in ms}
+        if dict(memb) != inv:
+            bad.append({"clause": "membership-inverse", "side": side, "got": dict(memb), "want": inv})
+        for n, ms in res.items():
+            if not ms or list(ms) != sorted(ms) or not set(ms) <= gs or not isinstance(ms, tuple):
+                bad.append({"clause": "group-shape", "side": side, "name": n, "members": list(ms)})
+    return bad
+
+
+# =====================================================================================================
+
+
+class quiet:
+    """the writers log every dropped pair / regrouped glyph; keep the check's output to its verdict lines"""
+
+    def __enter__(self):
+        import logging
+
+        self.prev = logging.root.manager.disable
+        logging.disable(logging.CRITICAL)
+
+    def __exit__(self, *a):
+        import logging
+
+        logging.disable(self.prev)
 
 
 @hook("C05")
 def c05_hook(tier, seed):
+    with quiet():
+        return _c05_hook(tier, seed)
+
+
+def _c05_hook(tier, seed):
     res = {"bounded": [], "violations": [], "checker_errors": [], "evaluations": 0, "distinct": 0, "trusted": [], "assumptions": []}
     # (2)
     try:
@@ -709,13 +820,13 @@ def c05_hook(tier, seed):
         rng = random.Random(seed)
         if tier == "quick":
             bad, n = check_merge(["A", "B", "C", "D"], 3, rng, sample=4000)
-            bound = f"{n} families of <=3 non-empty script sets over 4 scripts (sampled from the full enumeration)"
+            bound = f"{n} ordered families of <=3 non-empty script sets over 4 scripts"
         else:
             bad, n = check_merge(["A", "B", "C", "D"], 4, rng, sample=60000)
             bad2, n2 = check_merge(["A", "B", "C", "D", "E", "F"], 4, rng, sample=40000)
             bad += bad2
             n += n2
-            bound = f"{n} families of <=4 script sets over 4 and 6 scripts"
+            bound = f"{n} ordered families of <=4 script sets over 4 and 6 scripts (sampled where the enumeration exceeds the budget)"
         res["evaluations"] += n
         res["bounded"].append({"what": "mergeScripts == connected components of the bucket-intersection graph; buckets pairwise disjoint; nothing lost or duplicated", "bound": bound, "failures": len(bad)})
         for b in bad[:1]:
@@ -723,10 +834,28 @@ def c05_hook(tier, seed):
             res["violations"].append(f"VIOLATION property=C05 replay={p} obligation=C05.mergeScripts.{b['clause']}")
     except Exception:
         res["checker_errors"].append("C05 hook (mergeScripts): " + traceback.format_exc()[-600:])
+    # (4)
+    try:
+        rng = random.Random(seed + 9)
+        n_g = 60 if tier == "quick" else 3000
+        nbad = 0
+        for k in range(n_g):
+            case = groups_case(rng, k)
+            bad = check_groups(case)
+            if bad and not nbad:
+                b = bad[0]
+                p = write_replay("C05", "getKerningGroups." + b["clause"], {"property": "C05", "contract": None, "case": None, "input": case, "obligation": "C05.getKerningGroups." + b["clause"], "observed": b})
+                res["violations"].append(f"VIOLATION property=C05 replay={p} obligation=C05.getKerningGroups.{b['clause']}")
+            nbad += len(bad)
+        res["evaluations"] += n_g
+        res["bounded"].append({"what": "getKerningGroups on real writers: kept groups == pruned, sorted, non-empty, prefixed groups not overlapping an earlier kept one; pairwise disjoint per side; membership map is the inverse",
+                               "bound": f"{n_g} generated UFOs (missing / skipped glyphs, empty groups, foreign prefixes, overlapping definitions)", "failures": nbad})
+    except Exception:
+        res["checker_errors"].append("C05 hook (getKerningGroups): " + traceback.format_exc()[-600:])
     # (1)
     try:
         rng = random.Random(seed + 5)
-        n_cases = 45 if tier == "quick" else 900
+        n_cases = 45 if tier == "quick" else 3000
         cases = gen_cases(rng, n_cases)
         seen = set()
         n_eval = 0
